@@ -13,6 +13,9 @@
 pub enum Mode {
     Scaled,
     Direct,
+    /// coverage-guided fuzzing: the tape is a byte string (one byte per element); a choice among `n`
+    /// alternatives reads 1, 2 or 4 bytes (big-endian) depending on `n` and is scaled like `Scaled`
+    Bytes,
 }
 
 pub struct Tape<'a> {
@@ -87,6 +90,20 @@ impl<'a> Tape<'a> {
         let r = match self.mode {
             Mode::Scaled => ((v as u64 * n as u64) >> 32) as usize,
             Mode::Direct => (v as usize).min(n - 1),
+            Mode::Bytes => {
+                let width = if n <= 256 {
+                    1
+                } else if n <= 65_536 {
+                    2
+                } else {
+                    4
+                };
+                let mut x = (v & 0xff) as u64;
+                for _ in 1..width {
+                    x = (x << 8) | (self.next_raw() & 0xff) as u64;
+                }
+                ((x * n as u64) >> (8 * width)) as usize
+            }
         };
         self.digest = mix(self.digest, ((n as u64) << 32) ^ r as u64);
         r
@@ -105,7 +122,7 @@ impl<'a> Tape<'a> {
     /// True with probability `pct` percent; the all-zero tape says false.
     pub fn chance(&mut self, pct: usize) -> bool {
         match self.mode {
-            Mode::Scaled => self.below(100) >= 100 - pct.min(100),
+            Mode::Scaled | Mode::Bytes => self.below(100) >= 100 - pct.min(100),
             Mode::Direct => self.below(2) == 1,
         }
     }
